@@ -347,6 +347,29 @@ PROPS["C14"] = dict(
     level_note=_MODELLED + "Lexing/printing of the text format is glue covered by the round trip itself; real "
                "values are multiples of 1/2 (printed exactly); EV forests not covered yet.")
 
+PROPS["C16"] = dict(
+    gens=[("misuse", gen.gen_C16, 1.0)], quick=50, thorough=500,
+    level_text="The documented precondition checks of apply (same domain; set/relation shape per operation), the "
+               "terminal window (generated codec), division by zero reached by the recursion, exhausted iterators "
+               "and detached edges are predicted by the model and must be raised by the library as the documented "
+               "error code -- never a crash; after every error all previously obtained edges are re-shown "
+               "(unchanged tables and canonical dumps), every forest is audited and new operations are compared "
+               "with the model. Theorems: the model's operations are total on well-shaped operands "
+               "(C04/C05) and the registry machine detaches exactly (C17).",
+    level_note=_MODELLED + "C++ exception unwinding is not modelled (partial): leaked temporary nodes after a "
+               "throw are visible only through the audit's count clauses. Known finding: the division shortcuts "
+               "(0/g, g/g) skip the zero-divisor check (corpus/C16).")
+PROPS["C17"] = dict(
+    gens=[("lifecycle", gen.gen_C17, 1.0)], quick=50, thorough=500,
+    level_text="Proved about the registry state machine: forest identifiers never decrease and are never reused "
+               "within one initialisation; destroying a forest detaches exactly the edges attached to it and "
+               "leaves every other forest, edge and domain unchanged. Tie: random create/destroy orders over "
+               "several domains and forests with operations spanning them, repeated initialize/cleanup; forest "
+               "ids, attached/detached status of every edge, error codes for detached edges, survivors' tables, "
+               "dumps and audits.",
+    level_note=_MODELLED + "'Never touches freed memory' is a property of the C++ runtime that a Gallina model "
+               "cannot exhibit (partial); the thorough tier runs the same scripts under AddressSanitizer.")
+
 NOT_APPLICABLE = {}
-for _p in ["C16", "C17"]:
+for _p in []:
     NOT_APPLICABLE[_p] = "check under construction in this session (model and correspondence stream not registered yet)"
